@@ -87,6 +87,16 @@ def check(pid, tier, seed):
     if tier == "quick":
         stride = max(1, len(trees) // 700)
         trees = trees[::stride]
+    # beyond TLC's bound on the depth: chains of nested directories with files at the bottom and half-way ("for any depth")
+    for depth in ((70, 33) if tier == "quick" else (70, 33, 130, 200)):
+        chain = {(): "dir"}
+        bottom = tuple(1 + (j % 3) for j in range(depth))
+        for k in range(1, depth + 1):
+            chain[bottom[:k]] = "dir"
+        chain[bottom + (1,)] = "f1"
+        chain[bottom + (2,)] = "f5000"
+        chain[bottom[:depth // 2] + (1 + bottom[depth // 2] % 3,)] = "f1"
+        trees.append({"tree": chain})
     lines, meta = [], {}
     for ti, st in enumerate(trees):
         tree = {tuple(k): v for k, v in st["tree"].items()}
@@ -152,6 +162,10 @@ def check(pid, tier, seed):
         em = next((r for r in recs if r.get("e") == "Empty"), None)
         if em and (em["exists"] or em["file"] or em["dir"] or em["abs"]) and prob is None:
             prob = "(empty path): exists/isFile/isDirectory/isAbsolute = %s/%s/%s/%s for the empty path, the file system has no such entry" % (em["exists"], em["file"], em["dir"], em["abs"])
+        for r in recs:
+            if r.get("e") == "Again" and prob is None and (r["exists"], r["file"], r["dir"]) != (r["fs_exists"], r["fs_file"], r["fs_dir"]):
+                prob = "(same Path object asked again, %s, %s the change): exists/isFile/isDirectory = %s/%s/%s, the file system says %s/%s/%s" % (
+                    r["what"], r["when"], r["exists"], r["file"], r["dir"], r["fs_exists"], r["fs_file"], r["fs_dir"])
         m = next((r for r in recs if r.get("e") == "Missing"), None)
         if prob is None and m is not None and (m["exists"] or m["file"] or m["dir"] or not m["size_throws"]):
             prob = "a missing entry: exists=%s isFile=%s isDirectory=%s size() throws NotFound=%s" % (m["exists"], m["file"], m["dir"], m["size_throws"])
